@@ -100,7 +100,7 @@ func authAllowed(w *world.World, p presentation, publicOK bool, assertionEnabled
 		}
 		v, u := assertionValid(w, p, now, time.Hour, time.Second)
 		return v, u, "invalid-assertion"
-	case "id-only":
+	case "id-only", "assertion-type-only":
 		return false, false, "no-secret"
 	}
 	return false, false, "no-credentials"
